@@ -75,6 +75,88 @@ def runScenario (eps tolEps : Float) (ops : List String) : String := Id.run do
     | _ => outs := "bad-op" :: outs
   return " | ".intercalate outs.reverse
 
+/-! loop scenarios with events:
+`loopev <eps> <tolEps> <dupTol> | new t0 tf dt | evint target nEvents it;it;.. | int target it;.. | setdt v | reset`
+with `it = base/probes/nested`: `base` as in `loopf`, `probes` = `E` (handle_events raised) or probes separated by `~`
+(format of the `events` command), `nested` = iterations of the nested call separated by `!` -/
+def parseProbe? (s : String) : Option (Events.Probe Float) :=
+  match s.splitOn ":" with
+  | [r, su, gm, gc, gp, fs, d, tm] => do
+      let r ← parseFloatBits? r
+      let gm ← parseInt? gm
+      let gc ← parseInt? gc
+      let gp ← parseInt? gp
+      let fl ← (fs.splitOn ".").mapM parseInt?
+      let d ← parseInt? d
+      let fields := match fl with
+        | [a, b, c, d2, e, f] => [(a, b), (c, d2), (e, f)]
+        | _ => []
+      pure { root := r, success := su == "1", gm := gm, gc := gc, gp := gp, fields := fields, direction := d, terminal := tm == "1" }
+  | _ => none
+
+def parseIterEv? (s : String) : Option (LoopEv.IterEv Float) :=
+  match s.splitOn "/" with
+  | [b, ps, ns] => do
+      let base ← parseIter? b
+      let nested ← if ns == "" then some [] else (ns.splitOn "!").mapM parseIter?
+      let arr := nested.toArray
+      let norc : Loop.Oracle Float := fun k _ _ => arr.getD k { ret := .raise }
+      if ps == "E" then pure { base := base, evRaise := true, nested := norc, nestedFuel := arr.size + 1 }
+      else
+        let probes ← if ps == "" then some [] else (ps.splitOn "~").mapM parseProbe?
+        pure { base := base, probes := probes, nested := norc, nestedFuel := arr.size + 1 }
+  | _ => none
+
+def showReqs (l : List (Loop.Req Float)) : String :=
+  showList id (l.reverse.map (fun r => s!"{showFloatBits r.h}:{r.final}:{r.cap}"))
+
+def runScenarioEv (eps tolEps dupTol : Float) (ops : List String) : String := Id.run do
+  let cfg : LoopEv.CfgEv Float := { loop := { eps := eps, tolEps := tolEps, half := 0.5 }, dupTol := dupTol }
+  let mut sys : Loop.Sys Float := Loop.construct 0.0 1.0 1.0
+  let mut evs : List (Nat × Float) := []
+  let mut outs : List String := []
+  for op in ops do
+    match (op.splitOn " ").filter (· ≠ "") with
+    | ["new", t0, tf, dt] =>
+      match parseFloatBits? t0, parseFloatBits? tf, parseFloatBits? dt with
+      | some t0, some tf, some dt => sys := Loop.construct t0 tf dt; evs := []; outs := dumpSys sys :: outs
+      | _, _, _ => outs := "bad-op" :: outs
+    | "evint" :: target :: nev :: rest =>
+      let its := match rest with
+        | [] => some []
+        | [x] => (x.splitOn ";").mapM parseIterEv?
+        | _ => none
+      match parseFloatBits? target, nev.toNat?, its with
+      | some target, some nev, some its =>
+        let arr := its.toArray
+        let orc : LoopEv.OracleEv Float := fun k _ _ => arr.getD k { base := { ret := .raise } }
+        let out := LoopEv.integrateEv cfg sys evs nev target orc (arr.size + 1)
+        sys := out.sys
+        evs := out.book.events
+        let ev := showList (fun (e : Nat × Float) => s!"{e.1}@{showFloatBits e.2}") evs
+        outs := s!"{dumpSys sys} G {out.guardExit} P {out.stopped} U {(arr.size : Int) - out.iters} R {showReqs out.reqs} N {showReqs out.nestedReqs} E {ev}" :: outs
+      | _, _, _ => outs := "bad-op" :: outs
+    | "int" :: target :: rest =>
+      let its := match rest with
+        | [] => some []
+        | [x] => parseList? parseIter? (x.replace ";" ",")
+        | _ => none
+      match parseFloatBits? target, its with
+      | some target, some its =>
+        let arr := its.toArray
+        let orc : Loop.Oracle Float := fun k _ _ => arr.getD k { ret := .raise }
+        let out := Loop.integrate cfg.loop sys target orc (arr.size + 1)
+        sys := out.sys
+        outs := s!"{dumpSys sys} G {out.guardExit} U {(arr.size : Int) - out.iters} R {showReqs out.reqs}" :: outs
+      | _, _ => outs := "bad-op" :: outs
+    | ["setdt", v] =>
+      match parseFloatBits? v with
+      | some v => sys := Loop.setDt sys v; outs := dumpSys sys :: outs
+      | none => outs := "bad-op" :: outs
+    | ["reset"] => sys := Loop.reset sys; evs := []; outs := dumpSys sys :: outs
+    | _ => outs := "bad-op" :: outs
+  return " | ".intercalate outs.reverse
+
 /-! polynomial right-hand sides: terms `comp:coef:tpow:e0.e1...` separated by `;` -/
 structure Term where
   comp : Nat
@@ -403,6 +485,10 @@ def stepLine (line : String) : String :=
     match parseFloatBits? eps, parseFloatBits? tolEps with
     | some eps, some tolEps => runScenario eps tolEps ((" ".intercalate rest).splitOn "|")
     | _, _ => bad
+  | "loopev" :: eps :: tolEps :: dupTol :: "|" :: rest =>
+    match parseFloatBits? eps, parseFloatBits? tolEps, parseFloatBits? dupTol with
+    | some eps, some tolEps, some dupTol => runScenarioEv eps tolEps dupTol ((" ".intercalate rest).splitOn "|")
+    | _, _, _ => bad
   | [] => ""
   | _ => bad
 
